@@ -45,6 +45,16 @@ CLAIMED = {
  "C18": ("rapid decimal-boundary ordinates x d in 0..15; literals checked in exact rational arithmetic",
          "Generated-input search aimed at rounding boundaries of the requested digit count (k*10^-d and (k+1/2)*10^-d within 2 ulps, 0.99..9, powers of ten, values rounding to zero, -0, denormals, huge values): every emitted literal is tokenised by the harness and checked for shape and for |literal - ordinate| <= 10^-d/2 exactly; structure is compared through the reference WKT/JSON readers; GeoJSON bbox in either option order.",
          "bbox only for geometries whose box is finite (JSON cannot carry +-Inf); an empty MultiPoint member may render as null or [].", "DESIGN.md §4 C18"),
+
+ "C01": ("rapid nested coordinates x layouts x construction/decoder routes vs flat-array model; mismatch injection",
+         "Generated-input search over structure: every geometry obtained through a drawn route (setters, flat constructors, Push, Clone, Reserve, re-set, four decoders) must satisfy the C01 well-formedness predicate, read back through Coords() bit for bit with empty parts in position, and expose exactly the model's flat array and offsets; a quarter of the cases inject a coordinate of the wrong length at a drawn position and require ErrStrideMismatch{Got,Want}.",
+         "NoLayout takes part in well-formedness and mismatch injection only (no coordinate can be set or read back); the empty Point exists only through NewPointEmpty; New*Flat receives only arrays the model says are well formed.", "DESIGN.md §4 C01"),
+ "C02": ("rapid operation histories (Push / failed Push / Reverse / Swap / Clone) interpreted against a list model",
+         "Model-based generated search over histories: each generated history is replayed on the real geometry and on a plain list of parts; after every step the part count, every part accessor, Coords() and the flat representation must equal the model, failed pushes must return ErrLayoutMismatch{Got,Want} and leave a bitwise snapshot unchanged, Reverse and Swap must do exactly what the statement says.",
+         "Histories are data (shrinkable, replayable); GeometryCollection has no Reverse/Swap.", "DESIGN.md §4 C02"),
+ "C16": ("rapid clone/mutation histories with bitwise snapshots of every live value",
+         "Model-based generated search: a value is cloned, then up to 20 mutations (ordinate and offset writes through the accessors, Push, Reverse, SetCoords, SetSRID, TransformInPlace, Swap, Reserve, further clones) hit a drawn member of the growing list of values; after each mutation every other value's bitwise snapshot must be unchanged, which also catches shared spare capacity.",
+         "nil versus empty slices are not compared (not observable through the statement); offset writes are undone after the check because they make the value ill formed.", "DESIGN.md §4 C16"),
 }
 PENDING_REASON = "check not built yet in this session (planned, see DESIGN.md §4); not claimed until its harness package exists"
 
